@@ -2,6 +2,7 @@ import Verif.Props.C07
 import Verif.Props.C06
 import Verif.Props.C05
 import Verif.Props.C18
+import Verif.Proofs.C09Js
 /-!
 # C09 — accepted input yields syntactically valid output that is accepted again
 
@@ -37,5 +38,24 @@ theorem svg_path_output_parses : type_of% @Verif.Props.C05.shorten_output_parses
 
 /-- **SVG path printer**: any well-formed group list lexes back to exactly its tokens -/
 theorem svg_path_lex_roundtrip : type_of% @Verif.Props.C05.path_lex_roundtrip := @Verif.Props.C05.path_lex_roundtrip
+
+/-! ## JS -/
+
+/-- **JS, writer level**: for every token list of the C01 token alphabet without an impossible adjacency, the bytes
+    written by the writer model (`write`, `writeSpaceBeforeIdent`, `writeSpaceBefore`, `writeSpaceAfterIdent`,
+    `a-- >b`, `<! --`) lex back, with the independent lexer `Spec.C09JsLex`, to exactly these tokens -/
+theorem js_token_sep : type_of% @Verif.Proofs.C09Js.js_token_sep := @Verif.Proofs.C09Js.js_token_sep
+
+/-- **JS, grammar trees**: the terminal string of every derivation tree of the expression grammar (plain names and
+    strings) satisfies the hypotheses of `js_token_sep` -/
+theorem js_tree_tokens_safe : type_of% @Verif.Proofs.C09Js.js_tree_tokens_safe :=
+  @Verif.Proofs.C09Js.js_tree_tokens_safe
+
+/-- **JS, grammar trees**: hence what the writer produces for it is read back as exactly that terminal string -/
+theorem js_tree_relex : type_of% @Verif.Proofs.C09Js.js_tree_relex := @Verif.Proofs.C09Js.js_tree_relex
+
+/-- **JS, expression printer**: the output of the printer model `printT` (C01) is token-separated and derives the
+    printed tree in the independent grammar: valid, and re-lexed to the intended tokens -/
+theorem js_expr_relex : type_of% @Verif.Proofs.C09Js.js_expr_relex := @Verif.Proofs.C09Js.js_expr_relex
 
 end Verif.Props.C09
